@@ -88,9 +88,10 @@ fn gen_batch(rng: &mut Rng, b: u64, scale_small: bool) -> String {
 }
 
 fn generate(rng: &mut Rng, _i: u64, _n: u64) -> String {
-    let (b, small): (u64, bool) = match rng.below(60) {
+    // large buffers mean long byte strings, which are slow to evaluate inside Coq: keep them rare
+    let (b, small): (u64, bool) = match rng.below(300) {
         0 => (65535, false),
-        1 | 2 | 3 => (*rng.pick(&[1200u64, 1500]), false),
+        1..=12 => (*rng.pick(&[1200u64, 1500]), false),
         _ => (*rng.pick(&[1u64, 2, 3, 4, 5, 8, 13, 16, 32]), true),
     };
     let mixed = rng.chance(1, 12);
